@@ -121,3 +121,9 @@ partial('C18', 'Proved (kernel): totality - for every bit pattern exp2 feeds to_
         'by periodicity in the exponent and a 192-cell kernel-evaluated check re-run against the regenerated constants 3 and B1; two binary64 Halley steps analysed over the reals give 3.4e-12; one final binary32 rounding). This is the 1-ulp clause in relative form '
         '(exactly <= 1 ulp except within 1.7e-4 below a power of two, where the bound reads 1.0002 ulp). NOT proved: bit-exact oddness, the powf (2.5e-4 + 8e-6|y|) and expf (1e-5, overflow/underflow ranges) contracts; these rest on the bit-exact correspondence and the f64 oracle (all 2^32 arguments in the thorough tier).',
         'Lean 4 real-semantics proofs (totality; cbrtf seed + Halley analysis); correspondence + exhaustive oracle for powf/expf accuracy')
+
+proof('C04', 'Machine-checked (kernel only, no native evaluation) for the fastmath build: C04.xyb_close / api_xyb - for images of any size, width, height and pixel order are preserved and EVERY finite pixel with components in [-1,4] that is non-negative (so every pixel of [0,4]^3) or has '
+      'each opsin mix <= -1/1000 or >= 1/20 is mapped within 2e-6 per component of X=(L-M)/2, Y=(L+M)/2, B=S, (L,M,S)=cbrt(max 0 (A rgb+b))-cbrt(b) with the libjxl constants of the property text as exact rationals and the real cube root. Ingredients: the ten model constants (regenerated from the source) are '
+      'within relative 5e-8 of the exact ones (integer comparisons, decide +kernel); rounding analysis of the three fused multiply-adds per row (relative for non-negative pixels, absolute otherwise); the clamp at 0 (cbrtf(0) is a constant below 1e-13); Cbrt.cbrtf_close (seed + two binary64 Halley steps + final rounding, '
+      'within 2^-24+1e-11 relative); cube-root perturbation bounds; the final add/sub/halving. With fastmath off cbrtf is the libm parameter of the model and the clause rests on the correspondence and the oracle.',
+      'Lean 4: rounding-error analysis over the reals incl. a kernel-checked accuracy proof of cbrtf; correspondence ties the model to the code')
